@@ -280,7 +280,9 @@ func (x *Exec) builtin(name string, c *ast.CallExpr, st *State) *Val {
 		x.writeThrough(st, t, ref, x.zeroVal(t))
 		return IntV(ref, info.TypeOf(c))
 	case "delete":
+		x.mapMut++
 		m := x.expr(c.Args[0], st)
+		x.mapMut--
 		k := x.expr(c.Args[1], st)
 		x.mapDelete(st, m, info.TypeOf(c.Args[0]), k)
 		return UnitV()
